@@ -32,13 +32,17 @@ Definition url := (Z * Z)%type.               (* (owner Tub, name) *)
 Definition key_eqb (a b : key) : bool := (fst a =? fst b) && (snd a =? snd b).
 
 (* a proxy held by B: RemoteReference + its RemoteReferenceTracker *)
-Record bproxy := { bp_key : key; bp_obj : Z; bp_url : url; bp_app : bool }.
+(* bp_url: the FURL the proxy's tracker carries -- None when the tracker was created from the SHORT form of a my-reference
+   (lib/Refs.v: t_url; RefsProofs.live_proxy_without_url shows that this happens, delivered_proxy_url exactly when) *)
+Record bproxy := { bp_key : key; bp_obj : Z; bp_url : option url; bp_app : bool }.
 
 (* Broker.myGifts (of B's Broker towards C): table key -> (rref, giftID, count); myGiftsByGiftID is its inverse index
    (entries are found by ge_id) *)
 Record gentry := { ge_key : key; ge_pin : key; ge_id : Z; ge_count : Z }.
 
-Record tref := { tr_id : Z; tr_url : url; tr_want : objid }.          (* their-reference giftID furl (+ ghost: what B meant) *)
+Record tref := { tr_id : Z; tr_url : option url; tr_want : objid }.   (* their-reference giftID furl (+ ghost: what B meant);
+                                                                         None: the empty FURL YourReferenceSlicer sends for a
+                                                                         proxy whose tracker has none *)
 Record answer := { an_id : Z; an_got : option objid; an_want : objid }.
 
 Record tstate := {
@@ -56,7 +60,9 @@ Record tstate := {
 }.
 
 Inductive top :=
-| TExport (o x c : Z)              (* owner o sends object x to B under clid c (first my-reference: with the FURL) *)
+| TExport (o x c : Z) (withurl : bool)
+                                   (* owner o sends object x to B under clid c; withurl: the tracker B creates for it knows the
+                                      FURL (the my-reference was a first one) -- the two-party model says which is possible when *)
 | TGive (k : key)                  (* B serialises its proxy k towards C: YourReferenceSlicer gift branch -> makeGift *)
 | TRecvBC                          (* C: TheirReferenceUnslicer.receiveClose for the next their-reference *)
 | TLookup (i : nat)                (* the owner processes the i-th getReferenceByName in flight and answers *)
@@ -109,6 +115,9 @@ Definition resolve (s : tstate) (u : url) : option objid :=
   | None => None
   end.
 
+Definition resolve_opt (s : tstate) (u : option url) : option objid :=
+  match u with Some u' => resolve s u' | None => None end.
+
 Definition find_bp (bp : list bproxy) (k : key) : option bproxy := find (fun b => key_eqb (bp_key b) k) bp.
 Definition known_obj (n : list (url * Z)) (o x : Z) : bool := existsb (fun e => (fst (fst e) =? o) && (snd e =? x)) n.
 
@@ -126,7 +135,7 @@ Definition upd (s : tstate) nm nn bp g ng bc lk an cb cp gf : tstate :=
 (* ---- an owner sends an object to B.  A living object B already has a proxy of: B's application holds it (again).
    Otherwise (a new object, or a living one B has let go of): a fresh clid on that connection, a new proxy; the FURL it
    carries is the name the owner's Tub assigns (the existing one if the object has one: assign_reuses_name). *)
-Definition do_export (s : tstate) (o x c : Z) : tstate :=
+Definition do_export (s : tstate) (o x c : Z) (withurl : bool) : tstate :=
   match find (fun b => objid_eqb (fst (bp_key b), bp_obj b) (o, x)) (bprox s) with
   | Some _ =>
     upd s (names s) (nextname s)
@@ -137,13 +146,17 @@ Definition do_export (s : tstate) (o x c : Z) : tstate :=
     if (known_obj (names s) o x && negb (obj_alive s (o, x)))           (* a dead object cannot be sent *)
        || existsb (fun b => key_eqb (bp_key b) (o, c)) (bprox s)          (* clids are not reused while in use *)
     then s
-    else
+    else if withurl then
       let '(n, nm, nn) :=
         match (if assign_reuses_name then find_name_of (names s) o x else None) with
         | Some n => (n, names s, nextname s)
         | None => (nextname s, ((o, nextname s), x) :: names s, nextname s + 1)
         end in
-      upd s nm nn ({| bp_key := (o, c); bp_obj := x; bp_url := (o, n); bp_app := true |} :: bprox s)
+      upd s nm nn ({| bp_key := (o, c); bp_obj := x; bp_url := Some (o, n); bp_app := true |} :: bprox s)
+          (gifts s) (nextgift s) (ch_bc s) (lookups s) (answers s) (ch_cb s) (cprox s) (gfail s)
+    else
+      (* the short form: no FURL travels, the owner's Tub is not asked for a name *)
+      upd s (names s) (nextname s) ({| bp_key := (o, c); bp_obj := x; bp_url := None; bp_app := true |} :: bprox s)
           (gifts s) (nextgift s) (ch_bc s) (lookups s) (answers s) (ch_cb s) (cprox s) (gfail s)
   end.
 
@@ -166,14 +179,23 @@ Definition do_give (s : tstate) (k : key) : tstate :=
 
 Definition ack_msgs (id : Z) : list (Z * Z) := if ackGift_sends id then [(id, ackGift_count)] else [].
 
-(* ---- TheirReferenceUnslicer.receiveClose: tub.getReference(url) *)
+(* ---- TheirReferenceUnslicer.receiveClose: tub.getReference(url).  For the empty FURL getReference fails without asking
+   anybody: the failure takes the place of an answer (ackGift is an addBoth: it runs for failures too) *)
 Definition do_recv_bc (s : tstate) : tstate :=
   match ch_bc s with
   | [] => s
   | m :: rest =>
-    upd s (names s) (nextname s) (bprox s) (gifts s) (nextgift s) rest (lookups s ++ [m]) (answers s)
-        (ch_cb s ++ match gift_ack_point with AckAtReceipt => ack_msgs (tr_id m) | AckAfterLookup => [] end)
-        (cprox s) (gfail s)
+    match tr_url m with
+    | Some _ =>
+      upd s (names s) (nextname s) (bprox s) (gifts s) (nextgift s) rest (lookups s ++ [m]) (answers s)
+          (ch_cb s ++ match gift_ack_point with AckAtReceipt => ack_msgs (tr_id m) | AckAfterLookup => [] end)
+          (cprox s) (gfail s)
+    | None =>
+      upd s (names s) (nextname s) (bprox s) (gifts s) (nextgift s) rest (lookups s)
+          (answers s ++ [{| an_id := tr_id m; an_got := None; an_want := tr_want m |}])
+          (ch_cb s ++ match gift_ack_point with AckAtReceipt => ack_msgs (tr_id m) | AckAfterLookup => [] end)
+          (cprox s) (gfail s)
+    end
   end.
 
 (* ---- the owner: remote_getReferenceByName -> tub.getReferenceForName(name); the answer is a my-reference *)
@@ -182,7 +204,7 @@ Definition do_lookup (s : tstate) (i : nat) : tstate :=
   | None => s
   | Some m =>
     upd s (names s) (nextname s) (bprox s) (gifts s) (nextgift s) (ch_bc s) (remove_nth (lookups s) i)
-        (answers s ++ [{| an_id := tr_id m; an_got := resolve s (tr_url m); an_want := tr_want m |}])
+        (answers s ++ [{| an_id := tr_id m; an_got := resolve_opt s (tr_url m); an_want := tr_want m |}])
         (ch_cb s) (cprox s) (gfail s)
   end.
 
@@ -229,12 +251,15 @@ Definition do_cdrop (s : tstate) (ox : objid) : tstate :=
       (filter (fun y => negb (objid_eqb y ox)) (cprox s)) (gfail s).
 
 (* ---- the owner's application registers an object under a name of its choosing (Tub.registerReference ->
-   _assignName(ref, preferred_name)).  Application-chosen names are disjoint from the generated ones (n < nextname) and
-   not in use (registering two objects under one name is the application's error).  What happens to an object that
-   already has a name is read from the source (assign_existing): it keeps it. *)
+   _assignName(ref, preferred_name)).  Application-chosen names are disjoint from the names still to be generated
+   (n < nextname).  What happens to an object that already has a name is read from the source (assign_existing): it keeps
+   it.  A name that is IN USE for another object is taken over, as in _assignName (`self.nameToReference[name] = ref`, no
+   test): `names` lists the entries newest first and a name is resolved by the newest entry (find_obj_of), while the older
+   object keeps its entry for the reverse direction (referenceToName[old object] is still that name) -- the older object's
+   FURL now leads to the newer object.  Theorems that need names to be unambiguous say so (faithful_op). *)
 Definition name_used (nm : list (url * Z)) (o n : Z) : bool := existsb (fun e => (fst (fst e) =? o) && (snd (fst e) =? n)) nm.
 Definition do_register (s : tstate) (o x n : Z) : tstate :=
-  if negb (n <? nextname s) || name_used (names s) o n then s
+  if negb (n <? nextname s) then s
   else
     match find_name_of (names s) o x with
     | Some old =>
@@ -251,7 +276,7 @@ Definition do_register (s : tstate) (o x n : Z) : tstate :=
 
 Definition tstep (s : tstate) (o : top) : tstate * list tevent :=
   match o with
-  | TExport o x c => (do_export s o x c, [])
+  | TExport o x c w => (do_export s o x c w, [])
   | TGive k => (do_give s k, [])
   | TRecvBC => (do_recv_bc s, [])
   | TLookup i => (do_lookup s i, [])
@@ -279,3 +304,19 @@ Definition outstanding (s : tstate) (id : Z) : Z :=
   occ_tr (ch_bc s) id + occ_tr (lookups s) id + occ_an (answers s) id + occ_cb (ch_cb s) id.
 
 Definition tquiescent (s : tstate) : Prop := ch_bc s = [] /\ lookups s = [] /\ answers s = [] /\ ch_cb s = [].
+
+(* ---- the guard of the C08 theorems about introductions (exact for the first clause: RefsProofs / GiftsProofs give a witness
+   for each clause that the statement fails without it):
+   * the proxy B gives away has a FURL (its tracker was created from the long form of a my-reference);
+   * the owner's application does not register an object under a name that is in use for another object. *)
+Definition faithful_op (s : tstate) (o : top) : bool :=
+  match o with
+  | TGive k => match find_bp (bprox s) k with
+               | Some b => match bp_url b with Some _ => true | None => false end
+               | None => true
+               end
+  | TRegister o x n => negb (n <? nextname s) || negb (name_used (names s) o n)
+  | _ => true
+  end.
+Fixpoint faithful_run (s : tstate) (ops : list top) : Prop :=
+  match ops with [] => True | o :: r => faithful_op s o = true /\ faithful_run (fst (tstep s o)) r end.
